@@ -6,7 +6,24 @@ from .common import *
 from .ffcommon import *
 
 
+def cdilog():
+    import ctypes
+    re, im = float(sys.argv[2]), float(sys.argv[3])
+    lib = harness_native('h_cdilog')
+    out = (ctypes.c_double * 2)()
+    lib.vx_cdilog.argtypes = [ctypes.c_double, ctypes.c_double, ctypes.POINTER(ctypes.c_double)]
+    lib.vx_cdilog(re, im, out)
+    mpmath.mp.dps = 40
+    ref = mpmath.polylog(2, mpmath.mpc(re, im))
+    got = mpmath.mpc(out[0], out[1])
+    err = abs(got - ref) / abs(ref)
+    print('dilog(%.17g%+.17gj) = %.17g%+.17gj, Li2 = %s, rel. err %s' % (re, im, out[0], out[1], mpmath.nstr(ref, 17), mpmath.nstr(err, 3)))
+    sys.exit(1 if err > 1e-13 else 0)
+
+
 def main():
+    if sys.argv[1] == 'cdilog':
+        return cdilog()
     name, sym, xs, tol = sys.argv[1], sys.argv[2], sys.argv[3:-1], float(sys.argv[-1])
     lib = harness_native('h_ff')
     args = [float(v) for v in xs]
